@@ -301,23 +301,40 @@ RETCODE adfFileTruncate ( struct AdfFile * const file,
         return RC_OK;
     }
 
+    // 0. the block lists are read back from the disk below: whatever still lives
+    //    only in the handle's buffers (current ext. block, data block, header) goes there first
+    RETCODE rc = adfFileFlush ( file );
+    if ( rc != RC_OK )
+        return rc;
+    file->currentDataBlockChanged = FALSE;
+
     // 1.
     AdfVectorSectors blocksToRemove;
-    RETCODE rc = adfFileTruncateGetBlocksToRemove ( file, fileSizeNew,
-                                                    &blocksToRemove );
+    rc = adfFileTruncateGetBlocksToRemove ( file, fileSizeNew,
+                                            &blocksToRemove );
     if ( rc != RC_OK )
         return rc;
 
-    // 2. seek to the new EOF
+    // 2. set the new size and position the handle at the new EOF from scratch,
+    //    so that the current data / ext. block are the last ones that are kept
+    file->fileHdr->byteSize = fileSizeNew;
+    file->curDataPtr = 0;
     rc = adfFileSeek ( file, fileSizeNew );
     if ( rc != RC_OK ) {
+        file->fileHdr->byteSize = fileSizeOld;
         free ( blocksToRemove.sectors );
         return rc;
     }
     assert ( file->pos == fileSizeNew );
 
     // 3.
-    file->fileHdr->byteSize = fileSizeNew;
+    if ( fileSizeNew <= MAX_DATABLK * file->volume->datablockSize &&
+         file->currentExt != NULL )
+    {
+        // no ext. block is kept: the buffered one must never be written back
+        free ( file->currentExt );
+        file->currentExt = NULL;
+    }
     if ( fileSizeNew == 0 ) {
         // the new file is an empty file
 
